@@ -470,7 +470,7 @@ Proof. unfold chunks_data. rewrite map_map. cbn [hex_chunk c_data]. rewrite map_
 
 (* the end-to-end statement: for EVERY request the HTTP/1.1 model accepts, a reader of the wire
    bytes gets exactly the described request, and whatever follows on the connection is untouched.
-   Hypotheses: no verbatim-key header spells Content-Length / Transfer-Encoding; the target has no
+   Premises: no verbatim-key header spells Content-Length / Transfer-Encoding; the target has no
    blank (only the raw query text of the caller's URL can put one there); for a chunked body the
    pieces are the body and their size lines are well-formed. *)
 Theorem h1_end_to_end : forall a parts w rest,
